@@ -26,6 +26,7 @@ mod sierra;
 mod core;
 mod pipe;
 mod text;
+mod wrap;
 
 use crate::core::{CheckDef, Tier};
 
